@@ -249,7 +249,7 @@ def run_case(case):
 def plan(tier):
     if tier == "quick":
         return [{"part": "bound", "shards": 8, "budget": {"n_examples": 250}}, {"part": "density", "shards": 8, "budget": {"n_examples": 6}}]
-    return [{"part": "bound", "shards": 8, "budget": {"n_examples": 6000}}, {"part": "density", "shards": 8, "budget": {"n_examples": 60}}]
+    return [{"part": "bound", "shards": 8, "budget": {"n_examples": 15000}}, {"part": "density", "shards": 8, "budget": {"n_examples": 150}}]
 
 
 def run_part(part, seed, shard, nshards, budget):
